@@ -692,6 +692,16 @@ func (s *sim) execVote(op Op) {
 	if !s.alive {
 		return
 	}
+	if s.fOnly {
+		if !s.fPhase {
+			s.fPhase = true
+			s.fStart = [2]uint64{s.vv.Height, uint64(s.vv.Round)}
+		}
+		op.T = append([]VT(nil), op.T...)
+		for i := range op.T {
+			op.T[i].S &= s.fMask
+		}
+	}
 	b := s.buildVote(op)
 	if s.skipKnown(s.voteTrigger(b)) {
 		return
@@ -714,6 +724,21 @@ func (s *sim) execVote(op Op) {
 }
 
 func (s *sim) classifyVote(b builtVote, pairs int) {
+	if s.fOnly {
+		if s.fSigned == nil {
+			s.fSigned = map[string]string{}
+		}
+		_, per, _ := b.authentic()
+		for hash, ok := range per {
+			for i := range ok {
+				k := fmt.Sprintf("%d/%d/%d/%d", b.H, b.R, b.Kind, i)
+				if prev, seen := s.fSigned[k]; seen && prev != hash {
+					s.label("f-equivocation")
+				}
+				s.fSigned[k] = hash
+			}
+		}
+	}
 	total := 0
 	unknown := false
 	for hash, sigs := range b.Proofs {
@@ -775,7 +800,7 @@ func (s *sim) deliverVote(b builtVote) (tmconsensus.HandleVoteProofsResult, bool
 // round macro: honest proposal + prevotes + precommits at the voting position
 
 func (s *sim) execRound(op Op) {
-	if !s.alive {
+	if !s.alive || s.fPhase {
 		return
 	}
 	h, r := s.vv.Height, s.vv.Round
